@@ -3,6 +3,7 @@
   single Write to qdbidx.log) leaves a directory that reopens to exactly the old disk content.
 -/
 import GocoinV.Proofs.C19Run
+import GocoinV.Proofs.C19Effects
 namespace GocoinV.Proofs.C19
 open GocoinV GocoinV.Qdb GocoinV.QdbSpec
 
@@ -98,5 +99,213 @@ theorem Grown.readable {F0 F : FS} {keep : Nat → Prop} (h : Grown F0 F keep) (
       have a' : rd.pos + rd.len ≤ f.length := a
       rw [List.drop_append_of_le_length (by omega),
         List.take_append_of_le_length (by simp only [List.length_drop]; omega)]
+
+theorem Grown.refl (F : FS) (keep : Nat → Prop) : Grown F F keep :=
+  ⟨rfl, rfl, rfl, fun _ f _ h => ⟨[], by simp [h]⟩⟩
+
+theorem Grown.trans {F0 F1 F2 : FS} {keep : Nat → Prop} (h1 : Grown F0 F1 keep) (h2 : Grown F1 F2 keep) :
+    Grown F0 F2 keep := by
+  refine ⟨h2.idx0.trans h1.idx0, h2.idx1.trans h1.idx1, h2.logs.trans h1.logs, ?_⟩
+  intro t f hk hf
+  obtain ⟨g, hg⟩ := h1.dats t f hk hf
+  obtain ⟨g', hg'⟩ := h2.dats t (f ++ g) hk hg
+  exact ⟨g ++ g', by rw [hg']; simp [List.append_assoc]⟩
+
+theorem logEntries_congr (F0 F : FS) (h0 : F.idx0 = F0.idx0) (h1 : F.idx1 = F0.idx1) (hl : F.log = F0.log) :
+    logEntries F = logEntries F0 := by
+  have hp : pickIdx F = pickIdx F0 := by unfold pickIdx; rw [h0, h1]
+  unfold logEntries snapVer
+  rw [hl, hp]
+
+/-! ### phase 2: the data writes of the loop are appends to the current data file -/
+
+theorem writes_prefix (ds : Nat) (ks : List Key) (idx : List (Key × Rec)) (F : FS) (f : Bytes)
+    (hf : dlookup ds F.dats = some f) (n : Nat) :
+    Grown F (F.applyAll ((planW ds idx ks f.length).take n)) (fun _ => True) ∧
+    (F.applyAll ((planW ds idx ks f.length).take n)).log = F.log := by
+  induction ks generalizing idx F f n with
+  | nil => simp only [planW, List.take_nil, FS.applyAll]; exact ⟨Grown.refl _ _, trivial⟩
+  | cons k t ih =>
+    cases hl : ilookup k idx with
+    | none => simp only [planW, hl]; exact ih idx F f hf n
+    | some rc =>
+      simp only [planW, hl]
+      cases n with
+      | zero => simp only [List.take_zero, FS.applyAll]; exact ⟨Grown.refl _ _, trivial⟩
+      | succ m =>
+        simp only [List.take_succ_cons, FS.applyAll]
+        -- the first write appends rc's data
+        have hF1 : F.apply (.writeDat ds f.length (rc.data.getD [])) =
+            { F with dats := dset ds (f ++ rc.data.getD []) F.dats } := by
+          unfold FS.apply
+          simp only [hf, writeAt_end]
+        have hstep : Grown F (F.apply (.writeDat ds f.length (rc.data.getD []))) (fun _ => True) := by
+          rw [hF1]
+          refine ⟨rfl, rfl, logEntries_congr _ _ rfl rfl rfl, ?_⟩
+          intro t' f' _ hf'
+          by_cases ht : t' = ds
+          · subst ht
+            rw [hf] at hf'
+            cases hf'
+            exact ⟨rc.data.getD [], dlookup_dset_same _ _ _⟩
+          · exact ⟨[], by simp only [List.append_nil]; rw [dlookup_dset_other _ _ _ _ ht]; exact hf'⟩
+        have hf1 : dlookup ds (F.apply (.writeDat ds f.length (rc.data.getD []))).dats = some (f ++ rc.data.getD []) := by
+          rw [hF1]; exact dlookup_dset_same _ _ _
+        have hlog1 : (F.apply (.writeDat ds f.length (rc.data.getD []))).log = F.log := by rw [hF1]
+        have hlen : f.length + (rc.data.getD []).length = (f ++ rc.data.getD []).length := by simp
+        rw [hlen]
+        obtain ⟨a, b⟩ := ih _ _ _ hf1 m
+        exact ⟨hstep.trans a, b.trans hlog1⟩
+
+theorem Grown.mono {F0 F : FS} {k1 k2 : Nat → Prop} (h : Grown F0 F k1) (hk : ∀ t, k2 t → k1 t) : Grown F0 F k2 :=
+  ⟨h.idx0, h.idx1, h.logs, fun t f ht hf => h.dats t f (hk t ht) hf⟩
+
+/-! ### phase 1: creating the data file -/
+
+theorem create_prefix (F : FS) (ds : Nat) (n : Nat) :
+    Grown F (F.applyAll (([Effect.createDat ds, .writeDat ds 0 (le32 ds)] : List Effect).take n)) (fun t => t ≠ ds) ∧
+    (F.applyAll (([Effect.createDat ds, .writeDat ds 0 (le32 ds)] : List Effect).take n)).log = F.log ∧
+    (2 ≤ n → dlookup ds (F.applyAll (([Effect.createDat ds, .writeDat ds 0 (le32 ds)] : List Effect).take n)).dats
+      = some (le32 ds)) := by
+  have h1 : F.apply (.createDat ds) = { F with dats := dset ds [] F.dats } := rfl
+  have h2 : (F.apply (.createDat ds)).apply (.writeDat ds 0 (le32 ds)) =
+      { F with dats := dset ds (le32 ds) (dset ds [] F.dats) } := by
+    unfold FS.apply
+    simp [dlookup_dset_same, writeAt]
+  have hg : ∀ (D : List (Nat × Bytes)), (∀ t, t ≠ ds → dlookup t D = dlookup t F.dats) →
+      Grown F { F with dats := D } (fun t => t ≠ ds) := by
+    intro D hD
+    refine ⟨rfl, rfl, logEntries_congr _ _ rfl rfl rfl, ?_⟩
+    intro t f ht hf
+    exact ⟨[], by simp only [List.append_nil]; rw [hD t ht]; exact hf⟩
+  match n with
+  | 0 => exact ⟨Grown.refl _ _, rfl, fun h => by omega⟩
+  | 1 =>
+    simp only [List.take_succ_cons, List.take_zero, FS.applyAll, h1]
+    exact ⟨hg _ (fun t ht => dlookup_dset_other _ _ _ _ ht), trivial, fun h => by omega⟩
+  | m + 2 =>
+    simp only [List.take_succ_cons, List.take_nil, FS.applyAll, h2]
+    refine ⟨hg _ (fun t ht => ?_), trivial, fun _ => dlookup_dset_same _ _ _⟩
+    rw [dlookup_dset_other _ _ _ _ ht, dlookup_dset_other _ _ _ _ ht]
+
+/-! ### phase 3: creating the index log -/
+
+theorem logcreate_prefix (F : FS) (ver : Nat) (hv : ver < 2^32) (hver : snapVer F = ver) (hl : F.log = none) (n : Nat) :
+    Grown F (F.applyAll (([Effect.createLog, .appendLog (le32 ver)] : List Effect).take n)) (fun _ => True) := by
+  have hle0 : logEntries F = [] := by unfold logEntries; rw [hl]
+  have hg : ∀ (L : Option Bytes), logEntries { F with log := L } = [] → Grown F { F with log := L } (fun _ => True) := by
+    intro L hL
+    exact ⟨rfl, rfl, hL.trans hle0.symm, fun t f _ hf => ⟨[], by simpa using hf⟩⟩
+  have hsv : ∀ L, snapVer { F with log := L } = ver := by
+    intro L; unfold snapVer pickIdx at hver ⊢; exact hver
+  match n with
+  | 0 => exact Grown.refl _ _
+  | 1 =>
+    simp only [List.take_succ_cons, List.take_zero, FS.applyAll]
+    show Grown F { F with log := some [] } _
+    apply hg
+    unfold logEntries
+    simp [logBody]
+  | m + 2 =>
+    simp only [List.take_succ_cons, List.take_nil, FS.applyAll]
+    have : (F.apply .createLog).apply (.appendLog (le32 ver)) = { F with log := some (le32 ver) } := by
+      unfold FS.apply; simp
+    rw [this]
+    apply hg
+    unfold logEntries
+    simp only [hsv]
+    have := logBody_ok ver hv []
+    simp only [List.append_nil] at this
+    rw [this]
+    rfl
+
+/-! ### all crash points of sync() before its last effect -/
+
+theorem snapVer_congr (F0 F : FS) (h0 : F.idx0 = F0.idx0) (h1 : F.idx1 = F0.idx1) : snapVer F = snapVer F0 := by
+  unfold snapVer pickIdx; rw [h0, h1]
+
+/-- Every directory that exists strictly inside sync() — after any number of its file operations except the
+    last one (the Write of the collected entries to qdbidx.log) — reopens without failure and gives every key
+    exactly the value the directory held before sync() started. -/
+theorem sync_prefix (db : DB) (inv : DiskInv db) (n : Nat) (hn : n < (syncEffs db).length) :
+    DirReadable (db.fs.applyAll ((syncEffs db).take n)) ∧
+    ∀ k, diskValue (db.fs.applyAll ((syncEffs db).take n)) k = diskValue db.fs k := by
+  let keep : Nat → Prop := fun t => db.datOpen = true ∨ t ≠ db.dataSeq
+  have hR0 : DirReadable db.fs := fun kr hkr => ⟨inv.dflags kr hkr, inv.dreads kr hkr⟩
+  have hkeep : ∀ kr ∈ diskIndex db.fs, keep kr.2.seq := by
+    intro kr hkr
+    cases ho : db.datOpen with
+    | true => exact Or.inl ho
+    | false => rw [inv.dat3 ho] at hkr; cases hkr
+  suffices hG : Grown db.fs (db.fs.applyAll ((syncEffs db).take n)) keep from hG.readable hR0 hkeep
+  -- split the prefix along the three phases
+  obtain ⟨c_open, c_same, c_new, _⟩ := checkDat_post db
+  let cd := cdEffs db
+  let ws := planW db.dataSeq db.index db.pending (checkDat db).lastPos
+  let cl := clEffs db
+  let last : Effect := .appendLog (encLog (syncPlan db.dataSeq db.index db.pending (checkDat db).lastPos).2.1)
+  have hse : syncEffs db = cd ++ (ws ++ (cl ++ [last])) := rfl
+  have hlen : (syncEffs db).length = cd.length + ws.length + cl.length + 1 := by
+    rw [hse]; simp only [List.length_append, List.length_cons, List.length_nil]; omega
+  rw [hlen] at hn
+  have htake : (syncEffs db).take n =
+      cd.take n ++ (ws.take (n - cd.length) ++ cl.take (n - cd.length - ws.length)) := by
+    rw [hse, List.take_append, List.take_append, List.take_append]
+    have : n - cd.length - ws.length - cl.length = 0 := by omega
+    rw [this]; simp
+  rw [htake, applyAll_append, applyAll_append]
+  -- phase 1
+  have hA : Grown db.fs (db.fs.applyAll (cd.take n)) keep ∧ (db.fs.applyAll (cd.take n)).log = db.fs.log ∧
+      (cd.length ≤ n → ∃ f, dlookup db.dataSeq (db.fs.applyAll (cd.take n)).dats = some f ∧
+        f.length = (checkDat db).lastPos) := by
+    cases ho : db.datOpen with
+    | true =>
+      have hcd : cd = [] := by show cdEffs db = []; unfold cdEffs; simp [ho]
+      rw [hcd]
+      simp only [List.take_nil, FS.applyAll]
+      obtain ⟨f, h1, h2, _⟩ := inv.dat1 ho
+      exact ⟨Grown.refl _ _, trivial, fun _ => ⟨f, h1, by rw [c_same ho]; exact h2.symm⟩⟩
+    | false =>
+      have hcd : cd = [.createDat db.dataSeq, .writeDat db.dataSeq 0 (le32 db.dataSeq)] := by
+        show cdEffs db = _; unfold cdEffs; simp [ho]
+      rw [hcd]
+      obtain ⟨g1, g2, g3⟩ := create_prefix db.fs db.dataSeq n
+      refine ⟨g1.mono (fun t ht => ?_), g2, fun hle => ⟨le32 db.dataSeq, g3 (by simpa using hle), ?_⟩⟩
+      · rcases ht with h | h
+        · rw [ho] at h; cases h
+        · exact h
+      · rw [(c_new ho).2.1]; simp
+  obtain ⟨gA, lA, fA⟩ := hA
+  -- phase 2
+  have hB : Grown (db.fs.applyAll (cd.take n)) ((db.fs.applyAll (cd.take n)).applyAll (ws.take (n - cd.length))) keep ∧
+      ((db.fs.applyAll (cd.take n)).applyAll (ws.take (n - cd.length))).log = db.fs.log := by
+    by_cases hle : cd.length ≤ n
+    · obtain ⟨f, hf1, hf2⟩ := fA hle
+      have := writes_prefix db.dataSeq db.pending db.index (db.fs.applyAll (cd.take n)) f hf1 (n - cd.length)
+      rw [hf2] at this
+      exact ⟨this.1.mono (fun _ _ => trivial), this.2.trans lA⟩
+    · have : n - cd.length = 0 := by omega
+      rw [this]
+      simp only [List.take_zero, FS.applyAll]
+      exact ⟨Grown.refl _ _, lA⟩
+  obtain ⟨gB, lB⟩ := hB
+  -- phase 3
+  have hC : Grown ((db.fs.applyAll (cd.take n)).applyAll (ws.take (n - cd.length)))
+      (((db.fs.applyAll (cd.take n)).applyAll (ws.take (n - cd.length))).applyAll (cl.take (n - cd.length - ws.length))) keep := by
+    cases hlo : db.logOpen with
+    | true =>
+      have hcl : cl = [] := by show clEffs db = []; unfold clEffs; simp [hlo]
+      rw [hcl]
+      simp only [List.take_nil, FS.applyAll]
+      exact Grown.refl _ _
+    | false =>
+      have hcl : cl = [.createLog, .appendLog (le32 db.verSeq)] := by
+        show clEffs db = _; unfold clEffs; simp [hlo]
+      rw [hcl]
+      have hAB := gA.trans gB
+      have hsv : snapVer ((db.fs.applyAll (cd.take n)).applyAll (ws.take (n - cd.length))) = db.verSeq :=
+        (snapVer_congr _ _ hAB.idx0 hAB.idx1).trans inv.ver
+      exact (logcreate_prefix _ db.verSeq inv.verlt hsv (lB.trans (inv.log1 hlo)) _).mono (fun _ _ => trivial)
+  exact (gA.trans gB).trans hC
 
 end GocoinV.Proofs.C19
